@@ -27,6 +27,9 @@ pub enum Step {
     Fail { voter: u8 },
     /// (expiry regime only) real time passes until every vote cast so far has certainly expired
     RealIdle,
+    /// the application stops reading its event stream while 70 further sessions are reported (two
+    /// events each; the stream holds 30 or 100 events), then catches up
+    EventBacklog,
 }
 
 #[derive(Clone, Debug, PartialEq, Eq, Hash, Serialize, Deserialize)]
@@ -58,8 +61,8 @@ fn cand_addr(c: u8, dual: bool) -> SocketAddr {
 
 async fn run(case: &Case, rep: &mut CaseReport) -> Option<(String, String)> {
     reset_globals();
-    let m = case.min.clamp(2, 6) as usize;
-    let nv = case.n_voters.clamp(2, 14) as usize;
+    let m = case.min.clamp(2, 7) as usize;
+    let nv = case.n_voters.clamp(2, 24) as usize;
     let nc = case.n_cands.clamp(2, 4);
     let mut s = Svc::new(SvcConfig {
         key_idx: 0,
@@ -109,6 +112,7 @@ async fn run(case: &Case, rep: &mut CaseReport) -> Option<(String, String)> {
     // more than the vote duration has passed since
     let mut named_at: HashMap<(usize, SocketAddr), std::time::Instant> = HashMap::new();
     let mut real_idles = 0;
+    let mut backlogs = 0;
     let mut updates_after_idle = 0u64;
     for step in &case.steps {
         let mut input_is_pong = false;
@@ -137,6 +141,25 @@ async fn run(case: &Case, rep: &mut CaseReport) -> Option<(String, String)> {
                 .await;
                 named_at.insert((v, a), std::time::Instant::now());
             }
+            Step::EventBacklog => {
+                if backlogs >= 1 {
+                    continue;
+                }
+                backlogs += 1;
+                s.drain_events = false;
+                for j in 0..70u32 {
+                    let k = 900 + j;
+                    s.inject(HandlerOut::Established(shaped_record(k, 1, Shape::V4), svc_addr4(k), ConnectionDirection::Outgoing)).await;
+                }
+                s.drain_events = true;
+                s.settle().await;
+                let n = s.take_events().len();
+                rep.count("events_read_after_the_backlog", n as u64);
+                if std::env::var_os("VERIF_TRACE").is_some() {
+                    eprintln!("[c17] backlog: {n} events were waiting in the stream");
+                }
+                rep.class("event-stream-ran-full-earlier");
+            }
             Step::RealIdle => {
                 if !case.expiry || real_idles >= 3 {
                     continue;
@@ -162,6 +185,9 @@ async fn run(case: &Case, rep: &mut CaseReport) -> Option<(String, String)> {
         collect(&mut s, &mut outstanding);
         let events = s.take_events();
         let now = s.d.local_enr();
+        if std::env::var_os("VERIF_TRACE").is_some() {
+            eprintln!("[c17] step {step:?}: events {:?}, udp4 {:?} seq {}", events.iter().map(|e| format!("{e:?}").chars().take(40).collect::<String>()).collect::<Vec<_>>(), now.udp4_socket(), now.seq());
+        }
         if let Some(p) = crate::runner::take_panic() {
             return Some((format!("panic-in-task/{}", p.split(':').take(2).collect::<Vec<_>>().join(":")), p));
         }
@@ -218,7 +244,10 @@ async fn run(case: &Case, rep: &mut CaseReport) -> Option<(String, String)> {
                     if cy >= cx {
                         return Some(("address/updated-without-unique-maximum".into(), format!("{x} has {cx} votes, rival {y} has {cy}")));
                     }
-                    if (cy as f64) >= 0.7 * cx as f64 + 0.5 {
+                    // a 30% lead means the rival has fewer than 70% of the winner's votes; exact integer
+                    // arithmetic, independent of how the implementation rounds its threshold (an
+                    // implementation that rounds may refuse MORE, never less)
+                    if 10 * cy >= 7 * cx {
                         return Some(("address/updated-without-clear-majority".into(), format!("{x} has {cx} votes, rival {y} has {cy} (within the 30% margin)")));
                     }
                 }
@@ -272,11 +301,12 @@ impl Property for C17 {
     }
     fn strategy(_tier: Tier) -> BoxedStrategy<Case> {
         let step = prop_oneof![
-            12 => (0u8..14, prop_oneof![4 => Just(0u8), 2 => Just(1u8), 1 => 0u8..4]).prop_map(|(voter, cand)| Step::Pong { voter, cand }),
+            12 => (0u8..24, prop_oneof![4 => Just(0u8), 3 => Just(1u8), 1 => 0u8..4]).prop_map(|(voter, cand)| Step::Pong { voter, cand }),
             2 => Just(Step::NextRound),
-            1 => (0u8..14).prop_map(|voter| Step::Fail { voter }),
+            1 => (0u8..24).prop_map(|voter| Step::Fail { voter }),
+            1 => Just(Step::EventBacklog),
         ];
-        let free = (any::<bool>(), 2u8..=6, 3u8..=14, prop_oneof![3 => Just(99u8), 1 => 0u8..14], 2u8..=4, proptest::collection::vec(step, 1..50))
+        let free = (any::<bool>(), 2u8..=7, prop_oneof![2 => 3u8..=14, 1 => 12u8..=24], prop_oneof![3 => Just(99u8), 1 => 0u8..14], 2u8..=4, proptest::collection::vec(step, 1..70))
             .prop_map(|(dual, min, n_voters, first_incoming, n_cands, steps)| Case { dual, min, n_voters, first_incoming, n_cands, steps, expiry: false });
         // expiry regime: some voters name an address, real time passes until those votes have
         // expired, then further voters name it (and the early ones may vote again in a new ping round)
@@ -306,13 +336,13 @@ impl Property for C17 {
         rep
     }
     fn rule() -> String {
-        "a real service with a scripted handler (IPv4 or dual stack, enr_peer_update_min 2..6, vote duration 10 min, ping interval 10 s virtual, connectivity timer off); 3..14 voters become table members through Established (outgoing; in a quarter of the cases some are incoming); the service's own PINGs are answered per script with PONGs naming one of 2..4 candidate addresses (IPv6 candidates in dual stack), voters change their vote in later ping rounds, some PINGs fail or stay unanswered. Ledger: latest vote per voter. Whenever the UDP socket of local_enr() changes between two steps: the step's input was a PONG; the new address has >= minimum current votes from distinct voters; (all voters eligible) it is the unique maximum and every rival has fewer than 0.7 x its votes + 0.5; seq increased, the signature verifies, and Event::SocketUpdated(address) was emitted in that step; an address named by fewer than the minimum number of peers is never taken. Expiry regime (one case in 41): vote duration 80 ms of real time, some voters name an address, a measured real idle period of more than 1.3 x the vote duration follows, then further voters name it; an update then needs at least the minimum number of peers whose naming is not certainly expired. Non-trivial = two candidates with >= 2 votes each, a voter changing its vote, or an update.".into()
+        "a real service with a scripted handler (IPv4 or dual stack, enr_peer_update_min 2..6, vote duration 10 min, ping interval 10 s virtual, connectivity timer off); 3..24 voters become table members through Established (outgoing; in a quarter of the cases some are incoming); the service's own PINGs are answered per script with PONGs naming one of 2..4 candidate addresses (IPv6 candidates in dual stack), voters change their vote in later ping rounds, some PINGs fail or stay unanswered. Ledger: latest vote per voter. Whenever the UDP socket of local_enr() changes between two steps: the step's input was a PONG; the new address has >= minimum current votes from distinct voters; (all voters eligible) it is the unique maximum and every rival has fewer than 70% of its votes; seq increased, the signature verifies, and Event::SocketUpdated(address) was emitted in that step; an address named by fewer than the minimum number of peers is never taken. Expiry regime (one case in 41): vote duration 80 ms of real time, some voters name an address, a measured real idle period of more than 1.3 x the vote duration follows, then further voters name it; an update then needs at least the minimum number of peers whose naming is not certainly expired. Non-trivial = two candidates with >= 2 votes each, a voter changing its vote, or an update.".into()
     }
     fn assumptions() -> Vec<String> {
         vec![
             "ordinary cases: votes never expire (10 min real-time vote duration). One case in 41 runs in the expiry regime: 80 ms vote duration, real idle periods of > 1.3 x that (IpVote reads std::time::Instant); there the margin clause is not evaluated (a rival's votes may have expired) and only the one-directional claim is made that an update needs >= minimum peers whose naming of the address is not CERTAINLY expired (sound under any machine load)".into(),
             "with incoming voters in the script (eligible only in dual stack while votes are missing) the majority-margin clause is not asserted, only minimum, seq, signature and event".into(),
-            "the margin check uses 0.7 x max + 0.5 so that it does not depend on the rounding mode of the implementation's threshold".into(),
+            "the margin check is exact integer arithmetic (a rival with >= 70% of the winner's votes is within the margin); an implementation that rounds its threshold may refuse more updates than that, never fewer".into(),
         ]
     }
 }
